@@ -78,17 +78,26 @@ func runForwarder(e *vlib.Env, res *vlib.Result) {
 	}
 
 	var ft feat
+	ft.addStr(fwdTopic)
 	var sigParts []any
 	var samples []any
 	sent, batches, withMeta := 0, 0, 0
+	// sweep slots: 0..12 for every second message (at most 26 messages), 13..25 for the destination topic of every second batch
+	sw := newSweeper(e, 26)
 	for sent < nMsgs && !res.Failed() {
 		k := e.R.Range(1, 3)
 		dest := genNonEmpty(e.R)
+		if batches%2 == 0 && batches/2 < 13 {
+			dest = sw.at(13 + batches/2)
+		}
 		ft.addStr(dest)
 		specs := make([]msgSpec, k)
 		msgs := make([]*message.Message, k)
 		for i := range specs {
 			specs[i] = genSpec(e.R)
+			if no := sent + i; no%2 == 0 && no/2 < 13 {
+				applySweep(e.R, &specs[i], sw.at(no/2), e.Idx/len(c16Classes)+no/2)
+			}
 			if specs[i].UUID == "" || e.R.Bool() {
 				specs[i].UUID = id + "-" + fmt.Sprint(sent+i) + "-" + specs[i].UUID
 			}
@@ -182,6 +191,8 @@ func runForwarder(e *vlib.Env, res *vlib.Result) {
 	res.Count("inputs", sent)
 	res.Count("forwarder_publish_calls", batches)
 	res.Count("forwarded_with_metadata", withMeta)
+	res.Count("corpus_sweep_strings", sw.used)
+	ft.report(res)
 	res.NonTrivial = res.Failed() || (withMeta > 0 && ft.multibyte && ft.control)
 	res.Sig = vlib.Sig("forwarder", sigParts)
 	if !res.Failed() {
